@@ -1,7 +1,7 @@
 ---------------------------- MODULE CartMem ----------------------------
 (* PICO-8 cart memory 0x0000..0x42ff and the documented semantics of picotool's section
    accessors. Memory = base pattern + sparse overrides, so states stay small at real geometry. *)
-EXTENDS Integers, Sequences, FiniteSets, TLC, Json, Bitwise
+EXTENDS Integers, Sequences, FiniteSets, TLC, Json, Bitwise, Randomization
 GFX == 0   MAPB == 8192   GFF == 12288   MUS == 12544   SFX == 12800   TOP == 17152
 CONSTANTS BaseMul, BaseAdd     \* prior contents: an arbitrary but fixed pattern per run
 Base(a) == (a * BaseMul + (a \div 64) * 13 + BaseAdd) % 256
@@ -128,15 +128,18 @@ GetterOps == {o \in OpSet : o.n \in {"get_sprite", "get_cell", "get_rect", "get_
 \*   many-argument setters), then its arguments (RandomElement: exactly one successor, so a run prints
 \*   NSeq histories of MaxSteps operations each).
 \* Mode "rmr": read - modify - read: a random getter, a random operation, THE SAME getter again, then
-\*   random operations (a value remembered from the first read must not survive the modification). In every
-\*   second history the modification is drawn from those that the model says change the getter's result.
+\*   random operations (a value remembered from the first read must not survive the modification). In three of
+\*   four histories the modification is drawn from those (of a random sample) that the model says change the getter's result.
 \* the modifications that, by the model, change what the getter g returns in memory f (through whichever API:
 \* a sprite read is changed by a map edit in the shared rows, a pixel rectangle by a sprite edit, ...)
-Interfering(f, g) == {o \in OpSet \ GetterOps : Do(Do(f, o).f, g).ret # Do(f, g).ret}
+Setters == OpSet \ GetterOps
+Interfering(S, f, g) == LET base == Do(f, g).ret IN {o \in S : Do(Do(f, o).f, g).ret # base}
 Next == /\ step < MaxSteps
         /\ \E k \in {RandomElement(Kinds)} :          \* (bound by \E: a LET would re-draw at every use)
+           \* (the interfering set is computed once per history, over a random sample of 250 modifications)
+           \E cand \in {IF Mode = "rmr" /\ step = 1 /\ sid % 4 # 0 THEN Interfering(RandomSubset(250, Setters), ov, first) ELSE {}} :
            \E op \in {IF Mode = "rmr" /\ step = 0 THEN RandomElement(GetterOps)
-                        ELSE IF Mode = "rmr" /\ step = 1 /\ sid % 2 = 0 /\ Interfering(ov, first) # {} THEN RandomElement(Interfering(ov, first))
+                        ELSE IF cand # {} THEN RandomElement(cand)
                         ELSE IF Mode = "rmr" /\ step = 2 THEN first
                         ELSE RandomElement({o \in OpSet : o.n = k})} :
            \E r \in {Do(ov, op)} :
